@@ -12,6 +12,7 @@ statements at the end lift it through `zip2` exactly as the library zips `(y, x)
 * `NSlice.Has s y` : pixel `y` lies in the region `[s.start, s.stop)`.
 -/
 import OdcGeo.Model.C04
+import OdcGeo.Model.C04Roi
 import OdcGeo.Lemmas.C04
 import Mathlib.Tactic.Linarith
 import Mathlib.Tactic.Ring
@@ -805,6 +806,400 @@ theorem ndindex_nodup (shape : List Nat) : (ndindex shape).Nodup := by
       obtain ⟨r2, _, e2⟩ := List.mem_map.1 h2
       rw [← e2] at e1
       exact hij (by simpa using (List.cons.inj e1).1)
+
+
+/-! ## `clip_tiles` depends on the *set* of selected tiles only (unsorted, duplicated selections) -/
+
+theorem minL_eq_of_mem_iff (a b : Int) (xs ys : List Int) (h : ∀ v, v ∈ a :: xs ↔ v ∈ b :: ys) :
+    minL a xs = minL b ys := by
+  have m1 := minL_mem a xs
+  have m2 := minL_mem b ys
+  have l1 := minL_le a xs
+  have l2 := minL_le b ys
+  have le_all1 : ∀ v ∈ a :: xs, minL a xs ≤ v := by
+    intro v hv; rcases List.mem_cons.1 hv with rfl | hv
+    · exact l1.1
+    · exact l1.2 v hv
+  have le_all2 : ∀ v ∈ b :: ys, minL b ys ≤ v := by
+    intro v hv; rcases List.mem_cons.1 hv with rfl | hv
+    · exact l2.1
+    · exact l2.2 v hv
+  have := le_all1 _ ((h _).2 m2)
+  have := le_all2 _ ((h _).1 m1)
+  omega
+
+theorem maxL_eq_of_mem_iff (a b : Int) (xs ys : List Int) (h : ∀ v, v ∈ a :: xs ↔ v ∈ b :: ys) :
+    maxL a xs = maxL b ys := by
+  have m1 := maxL_mem a xs
+  have m2 := maxL_mem b ys
+  have l1 := le_maxL a xs
+  have l2 := le_maxL b ys
+  have ge_all1 : ∀ v ∈ a :: xs, v ≤ maxL a xs := by
+    intro v hv; rcases List.mem_cons.1 hv with rfl | hv
+    · exact l1.1
+    · exact l1.2 v hv
+  have ge_all2 : ∀ v ∈ b :: ys, v ≤ maxL b ys := by
+    intro v hv; rcases List.mem_cons.1 hv with rfl | hv
+    · exact l2.1
+    · exact l2.2 v hv
+  have := ge_all1 _ ((h _).2 m2)
+  have := ge_all2 _ ((h _).1 m1)
+  omega
+
+/-- **clip_tiles, any order, any multiplicity**: two selections with the same *set* of tile
+indices (permuted, with duplicates, …) are clipped to the same block `[y1, y2]`, and each
+re-based index is the original index minus the block origin, in the order given. -/
+theorem clipSel_set_invariant (s t : List Int) (hs : s ≠ []) (h : ∀ v, v ∈ s ↔ v ∈ t) :
+    ∃ y1 y2, clipSel s = .ok (y1, y2, s.map (· - y1)) ∧ clipSel t = .ok (y1, y2, t.map (· - y1)) := by
+  cases s with
+  | nil => exact absurd rfl hs
+  | cons a xs =>
+    cases t with
+    | nil => exact absurd ((h a).1 (by simp)) (by simp)
+    | cons b ys =>
+      refine ⟨minL a xs, maxL a xs, rfl, ?_⟩
+      simp only [clipSel]
+      rw [minL_eq_of_mem_iff a b xs ys h, maxL_eq_of_mem_iff a b xs ys h]
+
+/-- … hence the clipped regular tiling is the same for both spellings of the selection. -/
+theorem clipTiles_set_invariant (N n : Int) (s t : List Int) (hs : s ≠ []) (h : ∀ v, v ∈ s ↔ v ∈ t) :
+    (clipTiles N n s).map (fun r => (r.1, r.2.1)) = (clipTiles N n t).map (fun r => (r.1, r.2.1)) := by
+  obtain ⟨y1, y2, h1, h2⟩ := clipSel_set_invariant s t hs h
+  simp only [clipTiles, h1, h2, bind, Except.bind, pure, Except.pure]
+  cases crop N n (.slc (some y1) (some (y2 + 1))) <;> rfl
+
+/-! ## zero-size members: empty tile ranges and zero-length chunks are addressable -/
+
+/-- **ranges of variable tiles, empty ones included**: for `0 ≤ a ≤ b ≤ T` the block of tiles
+`a:b` is the region `[Σ ch[:a], Σ ch[:b])`; `a:a` is the empty region at that offset. -/
+theorem vgetItem_range (ch : List Int) (hok : ChunksOK ch) (idx : PIdx) (a b : Nat)
+    (hr : normSlice idx (vcount ch) = ⟨a, b⟩) (hab : a ≤ ch.length ∧ b ≤ ch.length) :
+    vgetItem ch idx = .ok ⟨pre ch a, pre ch b⟩ := by
+  rw [vgetItem_of_norm ch idx a b hr, if_neg (by omega), npGet_offsets ch hok a hab.1,
+      npGet_offsets ch hok b hab.2]
+  rfl
+
+/-- a zero-length chunk is a legitimate tile: addressable, with an empty region and shape 0 -/
+theorem vzero_chunk_tile (ch : List Int) (hok : ChunksOK ch) (i : Nat) (hc : ch[i]? = some 0) :
+    ∃ s, vgetItem ch (.idx i) = .ok s ∧ s.start = s.stop ∧ vtileShape ch i = .ok 0 := by
+  have hi := (List.getElem?_eq_some_iff.1 hc).1
+  refine ⟨_, vgetItem_idx ch hok i hi, ?_, ((vchunks_spec ch hok).2.2.2 i 0 hc)⟩
+  simp only []
+  rw [pre_step ch i 0 hc]; omega
+
+/-- **`GeoboxTiles[idx]` ≡ `.crop[idx].base`** for every index expression (ints, ranges, empty
+ranges): whenever `crop` answers, `__getitem__` answers with the same GeoBox … -/
+theorem gbt_getitem_eq_crop_base (g : GeoboxTiles) (iy ix : PIdx) (g' : GeoboxTiles)
+    (h : g.crop iy ix = .ok g') : g.getItem iy ix = .ok g'.base := by
+  simp only [GeoboxTiles.crop, GeoboxTiles.getItem, bind, Except.bind, pure, Except.pure] at h ⊢
+  cases hA : getItem2 g.tiles iy ix with
+  | error e => rw [hA] at h; cases h
+  | ok r =>
+    rw [hA] at h
+    simp only [] at h ⊢
+    cases hB : crop2 g.tiles iy ix with
+    | error e => rw [hB] at h; cases h
+    | ok t => rw [hB] at h; cases h; rfl
+
+/-- … and it is the parent cropped to `roi[idx]` (`base[self.roi[idx]]`) by definition; on
+variable tiles `crop` answers whenever `__getitem__` does, so the three spellings agree. -/
+theorem gbt_getitem_eq_base_roi (g : GeoboxTiles) (iy ix : PIdx) (ry rx : NSlice)
+    (h : getItem2 g.tiles iy ix = .ok (ry, rx)) :
+    g.getItem iy ix = .ok (g.base.crop ry.toPIdx rx.toPIdx) := by
+  simp only [GeoboxTiles.getItem, h, bind, Except.bind, pure, Except.pure]
+
+theorem gbt_crop_of_getitem_var (base : GBox) (chy chx : List Int) (iy ix : PIdx) (tile : GBox)
+    (h : (GeoboxTiles.mk base ⟨.var chy, .var chx⟩).getItem iy ix = .ok tile) :
+    ∃ g', (GeoboxTiles.mk base ⟨.var chy, .var chx⟩).crop iy ix = .ok g' ∧ g'.base = tile := by
+  simp only [GeoboxTiles.crop, GeoboxTiles.getItem, bind, Except.bind, pure, Except.pure] at h ⊢
+  cases hA : getItem2 ⟨.var chy, .var chx⟩ iy ix with
+  | error e => rw [hA] at h; cases h
+  | ok r =>
+    rw [hA] at h
+    simp only [] at h ⊢
+    cases h
+    refine ⟨⟨base.crop r.1.toPIdx r.2.toPIdx, ⟨.var (vcrop chy iy), .var (vcrop chx ix)⟩⟩, ?_, rfl⟩
+    simp only [crop2, zip2, Tiling.crop, bind, Except.bind, pure, Except.pure]
+
+
+
+/-! ## `_norm_roi`: window spellings -/
+
+/-- the index list a `Roi` stands for before padding -/
+def Roi.given (shape : List Int) : Roi → List PIdx
+  | .none => shape.map fullIdx
+  | .single i => [i]
+  | .tuple is => is
+
+theorem padRoi_def (shape : List Int) (axis : Nat) (roi : Roi) :
+    padRoi shape axis roi =
+      if (roi.given shape).length = 2 then
+        .ok ((shape.take axis).map fullIdx ++ roi.given shape ++ (shape.drop (axis + 2)).map fullIdx)
+      else if (roi.given shape).length < shape.length then
+        .ok (roi.given shape ++ (shape.drop (roi.given shape).length).map fullIdx)
+      else if (roi.given shape).length > shape.length then .error .indexError
+      else .ok (roi.given shape) := by
+  cases roi <;> rfl
+
+/-- `_norm_roi` raises (`IndexError`) exactly for a window with more entries than the array has
+axes – except that a 2-tuple is always read as the `Y, X` window. -/
+theorem padRoi_error_iff (shape : List Int) (axis : Nat) (roi : Roi) :
+    padRoi shape axis roi = .error .indexError ↔
+      ((roi.given shape).length ≠ 2 ∧ shape.length < (roi.given shape).length) := by
+  rw [padRoi_def]
+  by_cases h2 : (roi.given shape).length = 2
+  · rw [if_pos h2]; simp [h2]
+  · rw [if_neg h2]
+    by_cases h3 : (roi.given shape).length < shape.length
+    · rw [if_pos h3]; simp; omega
+    · rw [if_neg h3]
+      by_cases h4 : (roi.given shape).length > shape.length
+      · rw [if_pos h4]; simp; omega
+      · rw [if_neg h4]; simp; omega
+
+/-- the padded window always has one entry per axis -/
+theorem padRoi_length (shape : List Int) (axis : Nat) (hax : axis + 2 ≤ shape.length) (roi : Roi)
+    (r : List PIdx) (h : padRoi shape axis roi = .ok r) : r.length = shape.length := by
+  rw [padRoi_def] at h
+  by_cases h2 : (roi.given shape).length = 2
+  · rw [if_pos h2] at h; cases h
+    have e := h2
+    simp only [List.length_append, List.length_map, List.length_take, List.length_drop]
+    omega
+  · rw [if_neg h2] at h
+    by_cases h3 : (roi.given shape).length < shape.length
+    · rw [if_pos h3] at h; cases h
+      simp only [List.length_append, List.length_map, List.length_drop]; omega
+    · rw [if_neg h3] at h
+      by_cases h4 : (roi.given shape).length > shape.length
+      · rw [if_pos h4] at h; cases h
+      · rw [if_neg h4] at h; cases h; omega
+
+theorem squeezeFrom_append (axis k : Nat) (xs ys : List PIdx) :
+    squeezeFrom axis k (xs ++ ys) = squeezeFrom axis k xs ++ squeezeFrom axis (k + xs.length) ys := by
+  induction xs generalizing k with
+  | nil => simp [squeezeFrom]
+  | cons x xs ih =>
+    simp only [List.cons_append, squeezeFrom, ih, List.length_cons, List.append_assoc]
+    have : k + 1 + xs.length = k + (xs.length + 1) := by omega
+    rw [this]
+
+theorem squeezeFrom_full (axis k : Nat) (ns : List Int) : squeezeFrom axis k (ns.map fullIdx) = [] := by
+  induction ns generalizing k with
+  | nil => rfl
+  | cons n ns ih => simp [squeezeFrom, fullIdx, isInt, ih]
+
+/-- **which axes an int squeezes**: axis `j` is squeezed iff the padded window has a plain int at
+position `j` and `j` is neither `Y` nor `X`. -/
+theorem squeezeFrom_mem (axis k : Nat) (r : List PIdx) (j : Nat) :
+    j ∈ squeezeFrom axis k r ↔
+      ∃ i p, r[i]? = some p ∧ j = k + i ∧ isInt p = true ∧ j ≠ axis ∧ j ≠ axis + 1 := by
+  induction r generalizing k with
+  | nil => simp [squeezeFrom]
+  | cons q qs ih =>
+    simp only [squeezeFrom, List.mem_append, ih]
+    constructor
+    · rintro (h | ⟨i, p, hp, hj, hr⟩)
+      · by_cases hc : (isInt q && k != axis && k != axis + 1) = true
+        · rw [if_pos hc] at h
+          simp at h hc
+          exact ⟨0, q, by simp, by omega, hc.1.1, by omega, by omega⟩
+        · rw [if_neg hc] at h; simp at h
+      · exact ⟨i + 1, p, by simpa using hp, by omega, hr⟩
+    · rintro ⟨i, p, hp, hj, h1, h2, h3⟩
+      cases i with
+      | zero =>
+        left
+        simp at hp; subst hp
+        have : (isInt q && k != axis && k != axis + 1) = true := by simp [h1]; omega
+        rw [if_pos this]; simp; omega
+      | succ i =>
+        right
+        exact ⟨i, p, by simpa using hp, by omega, h1, h2, h3⟩
+
+theorem squeeze_spec (axis : Nat) (r : List PIdx) (j : Nat) :
+    j ∈ squeezeAxes axis r ↔ ∃ p, r[j]? = some p ∧ isInt p = true ∧ j ≠ axis ∧ j ≠ axis + 1 := by
+  unfold squeezeAxes
+  rw [squeezeFrom_mem]
+  constructor
+  · rintro ⟨i, p, hp, hj, h⟩
+    have : i = j := by omega
+    subst this; exact ⟨p, hp, h⟩
+  · rintro ⟨p, hp, h⟩
+    exact ⟨j, p, hp, by omega, h⟩
+
+/-- **a 2-tuple is the `Y, X` window and squeezes nothing** (whatever the rank of the blocks and
+whether the row / column is given as int or slice): the leading and trailing axes are taken in
+full and stay in the result. -/
+theorem normRoi_two_tuple (shape : List Int) (axis : Nat) (hax : axis ≤ shape.length) (wy wx : PIdx) :
+    padRoi shape axis (.tuple [wy, wx]) =
+      .ok ((shape.take axis).map fullIdx ++ [wy, wx] ++ (shape.drop (axis + 2)).map fullIdx) ∧
+    squeezeAxes axis ((shape.take axis).map fullIdx ++ [wy, wx] ++ (shape.drop (axis + 2)).map fullIdx) = [] := by
+  refine ⟨rfl, ?_⟩
+  unfold squeezeAxes
+  rw [squeezeFrom_append, squeezeFrom_append, squeezeFrom_full, squeezeFrom_full]
+  have hl : ((shape.take axis).map fullIdx).length = axis := by simp; omega
+  simp only [List.nil_append, List.append_nil, Nat.zero_add, hl, squeezeFrom]
+  simp
+
+/-- an int on a leading / trailing axis of a full-rank window is squeezed, an int on `Y` or `X`
+is not -/
+example : normRoi [3, 7, 5, 2] 1 (.tuple [.idx (-1), .idx 2, .slc (some 1) (some 4), .idx 0]) =
+    .ok ([⟨2, 3⟩, ⟨2, 3⟩, ⟨1, 4⟩, ⟨0, 1⟩], [0, 3]) := by decide
+
+theorem dropFrom_nil (k : Nat) (shape : List Int) : dropFrom [] k shape = shape := by
+  induction shape generalizing k with
+  | nil => rfl
+  | cons n ns ih => simp [dropFrom, ih]
+
+theorem Assembler.shape_take {Val} (a : Assembler Val) : a.shape.take a.lead.length = a.lead := by
+  simp [Assembler.shape]
+
+theorem Assembler.shape_drop {Val} (a : Assembler Val) : a.shape.drop (a.lead.length + 2) = a.trail := by
+  simp only [Assembler.shape, List.append_assoc]
+  rw [List.drop_append]
+  simp
+
+/-- **`extract` with a 2-tuple window** is `extract` with the leading / trailing axes in full and
+no axis removed: so (with `assemble_window`) for blocks of any rank, `assembler[y, x-range]` has
+the shape `lead ++ [h, w] ++ trail` – a row or column given as an int stays as a length-1
+axis – and every cell is the block cell of the tile owning that mosaic pixel, else the fill. -/
+theorem extractND_two_tuple {Val} (a : Assembler Val) (fill : Val) (ry rx : PIdx) :
+    extractND a fill (.tuple [ry, rx]) =
+      (extract a fill (a.lead.map fullIdx) ry rx (a.trail.map fullIdx)).map fun r =>
+        (r.1.1 ++ [r.1.2.1, r.1.2.2.1] ++ r.1.2.2.2, r.1, r.2) := by
+  have hp := (normRoi_two_tuple a.shape a.lead.length (by simp [Assembler.shape]) ry rx)
+  rw [Assembler.shape_take, Assembler.shape_drop] at hp
+  simp only [extractND, hp.1, bind, Except.bind, pure, Except.pure]
+  have hl : (a.lead.map fullIdx).length = a.lead.length := by simp
+  have e1 : (List.map fullIdx a.lead ++ [ry, rx] ++ List.map fullIdx a.trail).drop a.lead.length =
+      ry :: rx :: a.trail.map fullIdx := by
+    rw [List.append_assoc, List.drop_append, ← hl]; simp
+  have e2 : (List.map fullIdx a.lead ++ [ry, rx] ++ List.map fullIdx a.trail).take a.lead.length =
+      a.lead.map fullIdx := by
+    rw [List.append_assoc, List.take_append, ← hl]; simp
+  rw [e1, e2]
+  simp only []
+  cases extract a fill (a.lead.map fullIdx) ry rx (a.trail.map fullIdx) with
+  | error e => rfl
+  | ok r =>
+    have hsq := hp.2
+    simp only [List.append_assoc, List.cons_append, List.nil_append] at hsq
+    simp only [Except.map, dropAxes, List.append_assoc, List.cons_append, List.nil_append, hsq, dropFrom_nil]
+
+/-- full slices are legitimate extra-axis windows (hypothesis of `assemble_window`) -/
+theorem winOK_full (ns : List Int) (h : ∀ n ∈ ns, 0 ≤ n) :
+    WinOK (((ns.map fullIdx).zip ns).map fun p => normSlice p.1 p.2) ns := by
+  induction ns with
+  | nil => simp [WinOK]
+  | cons n ns ih =>
+    have hn := h n (by simp)
+    simp only [List.map_cons, List.zip_cons_cons, WinOK, fullIdx, normSlice, wrapNeg]
+    refine ⟨?_, ih (fun m hm => h m (List.mem_cons_of_mem _ hm))⟩
+    simp; omega
+
+
+theorem lens_full (ns : List Int) (h : ∀ n ∈ ns, 0 ≤ n) :
+    lens (((ns.map fullIdx).zip ns).map fun p => normSlice p.1 p.2) = ns := by
+  induction ns with
+  | nil => rfl
+  | cons n ns ih =>
+    have hn := h n (by simp)
+    have := ih (fun m hm => h m (List.mem_cons_of_mem _ hm))
+    simp only [lens] at this ⊢
+    simp only [List.map_cons, List.zip_cons_cons, fullIdx, normSlice, wrapNeg, this]
+    congr 1
+    simp; omega
+
+/-- **assemble_window for the `assembler[y, x]` spelling, any block rank** (the C04-12 class):
+with leading axes `lead` and trailing axes `trail`, a 2-tuple window – row and column each an
+int, a negative int, a slice or an open slice – returns an array of shape
+`lead ++ [h, w] ++ trail` (nothing is squeezed; an int row is a length-1 axis), whose cells are
+the block cells of the tiles owning the mosaic pixels, else the fill value. -/
+theorem assemble_window_two_tuple {Val} (a : Assembler Val) (hy : ChunksOK a.chy) (hx : ChunksOK a.chx)
+    (hkeys : ∀ k ∈ a.present, KeyOK a k) (hlead : ∀ n ∈ a.lead, 0 ≤ n) (htrail : ∀ n ∈ a.trail, 0 ≤ n)
+    (fill : Val) (ry rx : PIdx)
+    (hwy : 0 ≤ (normSlice ry (total a.chy)).start ∧
+      (normSlice ry (total a.chy)).start ≤ (normSlice ry (total a.chy)).stop)
+    (hwx : 0 ≤ (normSlice rx (total a.chx)).start ∧
+      (normSlice rx (total a.chx)).start ≤ (normSlice rx (total a.chx)).stop) :
+    let wy := normSlice ry (total a.chy)
+    let wx := normSlice rx (total a.chx)
+    let wl := ((a.lead.map fullIdx).zip a.lead).map fun p => normSlice p.1 p.2
+    let wt := ((a.trail.map fullIdx).zip a.trail).map fun p => normSlice p.1 p.2
+    ∃ arr, extractND a fill (.tuple [ry, rx]) =
+        .ok (a.lead ++ [wy.stop - wy.start, wx.stop - wx.start] ++ a.trail,
+             (a.lead, wy.stop - wy.start, wx.stop - wx.start, a.trail), arr) ∧
+      ∀ l y x t, InBox l a.lead → (0 ≤ y ∧ y < wy.stop - wy.start) →
+        (0 ≤ x ∧ x < wx.stop - wx.start) → InBox t a.trail →
+        (∀ k ∈ a.present, Owns a k (wy.start + y) (wx.start + x) →
+          arr l y x t = a.blk k (shift wl l) (wy.start + y - (tileReg a.chy k.1).start)
+            (wx.start + x - (tileReg a.chx k.2).start) (shift wt t)) ∧
+        ((∀ k ∈ a.present, ¬ Owns a k (wy.start + y) (wx.start + x)) → arr l y x t = fill) := by
+  intro wy wx wl wt
+  obtain ⟨arr, he, hcells⟩ := assemble_window a hy hx hkeys fill (a.lead.map fullIdx) ry rx
+    (a.trail.map fullIdx) (by simp) (by simp) (winOK_full a.lead hlead) (winOK_full a.trail htrail)
+    hwy hwx
+  have l1 := lens_full a.lead hlead
+  have l2 := lens_full a.trail htrail
+  rw [l1, l2] at he hcells
+  refine ⟨arr, ?_, hcells⟩
+  rw [extractND_two_tuple, he]
+  rfl
+
+/-! ## `planes_yx` enumerates every plane exactly once -/
+
+theorem ndindex_length (shape idx : List Nat) (h : idx ∈ ndindex shape) : idx.length = shape.length := by
+  induction shape generalizing idx with
+  | nil => simp [ndindex] at h; simp [h]
+  | cons n ns ih =>
+    simp only [ndindex, List.mem_flatMap, List.mem_map] at h
+    obtain ⟨i, _, rest, hr, rfl⟩ := h
+    simp [ih rest hr]
+
+/-- **planes_yx**: the planes are in one-to-one correspondence with the index vectors of the
+other axes (`ndindex_mem`): no plane is produced twice, and the plane of index vector `p ++ q`
+(`p` over the leading, `q` over the trailing axes) is `p ++ [Y, X] ++ q`. -/
+theorem planesYX_nodup (lead trail : List Nat) : (planesYX lead trail).Nodup := by
+  unfold planesYX
+  refine (List.nodup_map_iff_inj_on (ndindex_nodup _)).2 ?_
+  intro x hx y hy hxy
+  have lx := ndindex_length _ _ hx
+  have ly := ndindex_length _ _ hy
+  simp only [List.length_append] at lx ly
+  have h1 : ((x.take lead.length).map some).length = ((y.take lead.length).map some).length := by
+    simp; omega
+  have hxy' : (x.take lead.length).map some ++ ([none, none] ++ (x.drop lead.length).map some) =
+      (y.take lead.length).map some ++ ([none, none] ++ (y.drop lead.length).map some) := by
+    simpa [List.append_assoc] using hxy
+  obtain ⟨e1, e2⟩ := List.append_inj hxy' h1
+  have e3 := List.append_cancel_left e2
+  have inj : Function.Injective (some : Nat → Option Nat) := fun _ _ h => Option.some.inj h
+  have t := List.map_injective_iff.2 inj e1
+  have d := List.map_injective_iff.2 inj e3
+  rw [← List.take_append_drop lead.length x, ← List.take_append_drop lead.length y, t, d]
+
+theorem planesYX_mem (lead trail p q : List Nat) (hp : p.length = lead.length) :
+    (p.map some ++ [none, none] ++ q.map some) ∈ planesYX lead trail ↔ (p ++ q) ∈ ndindex (lead ++ trail) := by
+  unfold planesYX
+  constructor
+  · intro h
+    obtain ⟨idx, hidx, he⟩ := List.mem_map.1 h
+    have hl := ndindex_length _ _ hidx
+    simp only [List.length_append] at hl
+    have h1 : ((idx.take lead.length).map some).length = (p.map some).length := by simp; omega
+    have he' : (idx.take lead.length).map some ++ ([none, none] ++ (idx.drop lead.length).map some) =
+        p.map some ++ ([none, none] ++ q.map some) := by simpa [List.append_assoc] using he
+    obtain ⟨e1, e2⟩ := List.append_inj he' h1
+    have e3 := List.append_cancel_left e2
+    have inj : Function.Injective (some : Nat → Option Nat) := fun _ _ h => Option.some.inj h
+    have t := List.map_injective_iff.2 inj e1
+    have d := List.map_injective_iff.2 inj e3
+    rw [← t, ← d, List.take_append_drop]; exact hidx
+  · intro h
+    refine List.mem_map.2 ⟨p ++ q, h, ?_⟩
+    rw [← hp]; simp
+
 
 /-! ## hypotheses are satisfiable / needed -/
 
